@@ -26,6 +26,8 @@
          -> floor(re * 2^20), floor(im * 2^20) of rfft(x)_k conj(rfft(y)_k), k = 0..n/2   (get_apf_from2spikes)
      7 :: nsp :: ntr :: nt :: cluster (nsp*ntr*nt ints, spike-major, then trace, then time)
          -> 1 :: peak trace :: per spike (1 :: integer delay :: (1 :: edge :: num :: den | 0) | 0)  |  0
+     8 :: nr :: nc :: x (nr*nc ints, row-major)     parabolic_max on a 2-D array
+         -> per row the output of op 2
 *)
 From Coq Require Import ZArith List Bool QArith Qreduction.
 From IBL.lib Require Import PyInt RunLib.
@@ -158,6 +160,14 @@ Definition run (inp : list Z) : list Z :=
   | 5 :: N :: r => run_freq N r
   | 6 :: N :: r => run_cross N r
   | 7 :: nsp :: ntr :: nt :: r => run_cluster nsp ntr nt r
+  | 8 :: nr :: nc :: r =>
+      flat_map (fun o => match o with
+                         | Some (edge, ip, mx) =>
+                             [1; enc_bool edge; Qnum (fst ip); Zpos (Qden (fst ip)); Qnum (fst mx); Zpos (Qden (fst mx))]
+                         | None => [0]
+                         end)
+               (parabolic_max_rows qc q0 q1 qadd qmul qopp qinv qleb qeqb
+                  (map (map q_of_int) (chunks (Z.to_nat nr) (Z.to_nat nc) (firstn (Z.to_nat nr * Z.to_nat nc) r))))
   | _ => [-999]
   end.
 
